@@ -117,7 +117,7 @@ pub fn format_arrow_duration_as_span(value: i64, unit: TimeUnit) -> String {
     }
 }
 
-fn get_optional_digit_value(s: Option<&str>) -> Result<i64> {
+fn get_optional_digit_value(s: Option<&str>) -> Result<u64> {
     match s {
         Some(s) => Ok(s.parse()?),
         None => Ok(0),
